@@ -141,5 +141,5 @@ def run_shard(spec) -> Acc:
 
 
 def plan(tier, seed):
-    n = 12 if tier == "quick" else 400
+    n = 16 if tier == "quick" else 400
     return [{"shard": i, "n": n} for i in range(16)]
